@@ -922,6 +922,53 @@ def gen_attr(rng):
     return {"kind": "text", "name": "M", "text": fns + mdl, "stream": "attr", "points": text_points(rng), "der_vec": der_vec}
 
 
+def gen_cond(rng):
+    """sums / differences of two or three ONE-SIDED conditionals with different conditions on different variables and
+    parameters (also nested, inside a for-equation and in an initial equation), with expand_vectors FIXED while the
+    three flags are toggled; evaluated at points on both sides of every condition independently"""
+    conds = ["x > p", "y < q", "z >= p", "x <= q", "y > z", "z < x", "(x > p and y < q)", "not (z > q)"]
+    exprs = ["a", "b", "a * b", "x + 1", "2.5", "p * a", "b - y", "time"]
+
+    def term(c=None):
+        c = c or rng.choice(conds)
+        e = rng.choice(exprs)
+        k = rng.random()
+        if k < 0.42:
+            return "(if %s then 0 else %s)" % (c, e)
+        if k < 0.84:
+            return "(if %s then %s else 0)" % (c, e)
+        return "(if %s then %s else %s)" % (c, e, rng.choice(exprs))
+
+    def combo(n):
+        cs = rng.sample(conds, n)
+        t = term(cs[0])
+        for c in cs[1:]:
+            t += " %s %s" % (rng.choice(["+", "+", "-"]), term(c))
+        return t
+
+    def nested():
+        c1, c2 = rng.sample(conds, 2)
+        inner = "%s + %s" % (term(c2), rng.choice(exprs))
+        return rng.choice(["(if %s then 0 else %s)" % (c1, inner), "(if %s then %s else 0)" % (c1, inner)]) + " + " + term()
+
+    eqs = ["  a = time;\n", "  b = 2 * time + 1;\n",
+           "  s1 = (if %s then 0 else %s) + (if %s then %s else 0);\n" % tuple(
+               x for pair in zip(rng.sample(conds, 2), rng.sample(exprs, 2)) for x in pair),
+           "  s2 = %s;\n" % combo(rng.choice([2, 3])), "  s3 = %s;\n" % nested(),
+           "  for i in 1:2 loop\n    w[i] = %s + i;\n  end for;\n" % combo(2)]
+    rng.shuffle(eqs)
+    text = ("model M\n  parameter Real p = 0.5;\n  parameter Real q = -0.25;\n  input Real x;\n  input Real y;\n  input Real z;\n"
+            "  Real a;\n  Real b;\n  Real s1;\n  Real s2;\n  Real s3;\n  Real w[2];\ninitial equation\n  s1 = %s;\nequation\n%send M;\n"
+            % (combo(2), "".join(eqs)))
+    grid = [-2.0, -1.0, -0.5, -0.25, 0.0, 0.25, 0.5, 1.0, 2.0]
+    pts = []
+    for k in range(6):      # x, y, z independently on either side of (or on) the thresholds p, q
+        pts.append({"time": rng.randint(-16, 16) / 8.0, "#salt": rng.randint(1, 10 ** 6), "p": 0.5, "q": -0.25,
+                    "x": rng.choice(grid), "y": rng.choice(grid), "z": rng.choice(grid)})
+    return {"kind": "text", "name": "M", "text": text, "stream": "cond", "points": pts,
+            "fixed": {"check_balanced": False, "expand_vectors": True}}
+
+
 # =============================================================================================
 # ORACLE: the 8 compilations agree
 # =============================================================================================
@@ -1320,8 +1367,9 @@ def run(ctx):
     n_matrix = ctx.scaled(5, 160)
     n_alias = ctx.scaled(7, 200)
     n_attr = ctx.scaled(7, 200)
+    n_cond = ctx.scaled(6, 160)
     text_models = ([gen_matrix(ctx.rng) for _ in range(n_matrix)] + [gen_alias(ctx.rng) for _ in range(n_alias)]
-                   + [gen_attr(ctx.rng) for _ in range(n_attr)])
+                   + [gen_attr(ctx.rng) for _ in range(n_attr)] + [gen_cond(ctx.rng) for _ in range(n_cond)])
     cases3 = [to_case(m, m.get("fixed", PLAIN_FIXED)) for m in text_models]
     import time as _t
     t0 = _t.time()
@@ -1350,7 +1398,7 @@ def run(ctx):
     feat = {}
     for stream, ms, cs, rs in (("no simplification option", models, cases, results),
                                ("substitution options fixed", simpl_models, cases2, results2),
-                               ("text templates: matrix function arguments / intra-array aliases with expand_vectors+detect_aliases fixed / attributes through piecewise-linear user functions, der() of calls",
+                               ("text templates: matrix function arguments / intra-array aliases with expand_vectors+detect_aliases fixed / attributes through piecewise-linear user functions, der() of calls / sums of one-sided conditionals with expand_vectors fixed",
                                 text_models, cases3, results3)):
         for mi_, (m, c, r) in enumerate(zip(ms, cs, rs)):
             why = judge(c, r)
@@ -1448,7 +1496,7 @@ def run(ctx):
                           sorted(k for k in SIMPL_FIXED if k != "check_balanced"), len(text_models), rejected, len(enc), len(venc)))
     ctx.cov["samples"] = [models[n_corpus]["text"], models[n_corpus + 1]["text"][:700]]
     ctx.notes["input_distribution"] = {"models_using": feat, "models": len(models) + len(simpl_models) + len(text_models),
-                                       "text_streams": {"matrix": n_matrix, "alias": n_alias, "attr": n_attr},
+                                       "text_streams": {"matrix": n_matrix, "alias": n_alias, "attr": n_attr, "cond": n_cond},
                                        "flag_combinations": COMBOS}
     ctx.assumptions += [
         "CasADi's contract (Section hypotheses of Proofs/C12_options.v, `strategies_ok`): the value of a mapped function "
